@@ -337,6 +337,9 @@ func (c *Core) Setup(s *Sim) {
 	if err := srv.Router(mux); err != nil {
 		panic("sim: Router: " + err.Error())
 	}
+	if cfg.Prop == "C14" && !cfg.Lean {
+		c.beheraCtor(s)
+	}
 	if cfg.StopMode == 2 {
 		// Stop before Run
 		c.invokeStop(s)
@@ -841,4 +844,54 @@ func sortedReqs(m map[int64]*Req) []*Req {
 		return out[i].Pos < out[j].Pos
 	})
 	return out
+}
+
+// beheraCtor checks the constructor clause of C14 on option sets drawn from
+// the choice source: at most one of grace, expire and error may be set, and
+// error codes above 8 are rejected.
+func (c *Core) beheraCtor(s *Sim) {
+	ch := s.Ch
+	for i := 0; i < 6; i++ {
+		var opts []gldap.Option
+		var set []string
+		grace, expire, code := -1, -1, -1
+		if ch.Choose(2) == 1 {
+			grace = int(c.gen.num31())
+			opts = append(opts, gldap.WithGraceAuthNsRemaining(uint(grace)))
+			set = append(set, "grace")
+		}
+		if ch.Choose(2) == 1 {
+			expire = int(c.gen.num31())
+			opts = append(opts, gldap.WithSecondsBeforeExpiration(uint(expire)))
+			set = append(set, "expire")
+		}
+		if ch.Choose(2) == 1 {
+			code = []int{0, 1, 8, 9, 10, 127, 128, 255, 256, 1000}[ch.Choose(10)]
+			opts = append(opts, gldap.WithErrorCode(uint(code)))
+			set = append(set, "error")
+		}
+		if ch.Choose(2) == 1 { // order of options must not matter
+			for l, r := 0, len(opts)-1; l < r; l, r = l+1, r-1 {
+				opts[l], opts[r] = opts[r], opts[l]
+			}
+		}
+		ctl, err := gldap.NewControlBeheraPasswordPolicy(opts...)
+		s.Probe("C14-behera-constructor-call")
+		wantErr := len(set) > 1 || code > 8
+		key := strings.Join(set, "+")
+		if code > 8 {
+			key += " code>8"
+		}
+		switch {
+		case wantErr && err == nil:
+			s.Violate("C14", "behera-ctor", "accepted "+key, fmt.Sprintf("NewControlBeheraPasswordPolicy(grace=%d expire=%d error=%d) returned a control: %v", grace, expire, code, ctl))
+		case !wantErr && err != nil:
+			s.Violate("C14", "behera-ctor", "rejected "+key, fmt.Sprintf("NewControlBeheraPasswordPolicy(grace=%d expire=%d error=%d): %v", grace, expire, code, err))
+		case err == nil:
+			e, _ := ctl.ErrorCode()
+			if ctl.Grace() != grace || ctl.Expire() != expire || e != code {
+				s.Violate("C14", "behera-ctor", "fields "+key, fmt.Sprintf("asked grace=%d expire=%d error=%d, got %d %d %d", grace, expire, code, ctl.Grace(), ctl.Expire(), e))
+			}
+		}
+	}
 }
